@@ -415,7 +415,14 @@ def make_strategy(script: dict):
                     sign = 1 if self.is_long else -1
                     q = abs(self.position.qty)
                     price = self.price
-                    if kind == 'liquidate':
+                    if kind == 'add_market':
+                        # scale in with a market order (re-declared entry); exits are usually re-declared in on_increased_position
+                        qa = max(round(q * 0.5, self.s.get('qty_dec', 3)), 10 ** -self.s.get('qty_dec', 3))
+                        if self.is_long:
+                            self.buy = [(qa, price)]
+                        else:
+                            self.sell = [(qa, price)]
+                    elif kind == 'liquidate':
                         self.liquidate()
                     elif kind == 'trail_sl' and s.get('sl'):
                         self.stop_loss = [(q, self._px(price * (1 - sign * s['sl'])))]
@@ -429,6 +436,13 @@ def make_strategy(script: dict):
                         parts = self._split(q, n)
                         self.stop_loss = self._dedup(
                             [(qq, self._px(price * (1 - sign * s['sl'] * (1 + 0.5 * i)))) for i, qq in enumerate(parts)])
+                    elif kind == 'reduce_market':
+                        # take part of the position off at the current price (a MARKET reduction), the rest at a distance
+                        parts = self._split(q, 2)
+                        rows = [(parts[0], price)]
+                        if len(parts) > 1 and s.get('tp'):
+                            rows.append((parts[1], self._px(price * (1 + sign * s['tp']))))
+                        self.take_profit = rows
                     elif kind == 'near_tp':
                         # an exit within / around the 0.015 % market band
                         off = [0.0, 0.0001, 0.00015, 0.0002, 0.0003][int(self.rnd('near') * 5)]
